@@ -70,7 +70,7 @@ Init ==
     /\ ctx \in CtxSet
     /\ \/ /\ kind = "rep" /\ sp = 1 /\ nf = "" /\ opts = <<TRUE, FALSE, TRUE, FALSE>>
           /\ lo \in -1..3 /\ hi \in -1..3 /\ (hi >= 0 => lo <= hi)
-       \/ /\ kind \in {"let", "class", "tmpl"} /\ sp = 1 /\ lo = 0 /\ hi = 0
+       \/ /\ kind \in {"let", "letarg", "class", "tmpl"} /\ sp = 1 /\ lo = 0 /\ hi = 0
           /\ nf \in NamedForms /\ opts = <<TRUE, FALSE, TRUE, FALSE>>
        \/ /\ kind = "letctx" /\ sp = 1 /\ lo = 0 /\ hi = 0        \* the context is INSIDE the let: the list itself is the alternative
           /\ nf \in NamedForms /\ opts = <<TRUE, FALSE, TRUE, FALSE>> /\ ctx # 0
@@ -83,6 +83,8 @@ Core ==
     CASE kind = "rep"   -> Rep(Elems[el], B(lo), B(hi))
       [] kind = "let"   -> Let("n", Digit, NamedRep(Elems[el], nf))
       [] kind = "letctx" -> Let("n", Digit, Ctx(ctx, NamedRep(Elems[el], nf)))
+         \* the repetition is (part of) a compound argument, which the generator moves into a helper function
+      [] kind = "letarg" -> Let("n", Digit, Call("Id", <<Pos(Seq2(NamedRep(Elems[el], nf), Opt(Str(<<semi>>))))>>))
       [] kind = "class" -> Ref("C")
       [] kind = "tmpl"  -> Let("k", Digit, Call("T", <<Pos(Ref("k"))>>))
       [] kind = "sep"   -> Sep(Elems[el], Seps[sp], opts)
@@ -90,7 +92,8 @@ Core ==
 G == [rules |-> [start |-> Rule(IF kind = "letctx" THEN Core ELSE Ctx(ctx, Core)),
                  A |-> Rule(Seq2(Str(<<a>>), Opt(Str(<<b>>)))),
                  C |-> Class(<<LetF("n", Digit), Field("items", NamedRep(Elems[el], IF nf = "" THEN "nn" ELSE nf))>>),
-                 T |-> RuleP(<<"n">>, NamedRep(Elems[el], IF nf = "" THEN "nn" ELSE nf))],
+                 T |-> RuleP(<<"n">>, NamedRep(Elems[el], IF nf = "" THEN "nn" ELSE nf)),
+                 Id |-> RuleP(<<"p">>, Ref("p"))],
       ign |-> <<>>, start |-> "start"]
 
 Bodies == TextSeqUpTo(<<a, b, comma>>, IF Tier = "quick" THEN 5 ELSE 6)
@@ -106,7 +109,7 @@ WithDigits(ts, i) ==
 
 DigitTexts == WithDigits(Bodies, 1) \o << <<>>, <<a>>, <<a, a>> >>
 
-Texts == IF kind \in {"let", "class", "tmpl", "letctx"} THEN DigitTexts ELSE Bodies
+Texts == IF kind \in {"let", "letarg", "class", "tmpl", "letctx"} THEN DigitTexts ELSE Bodies
 
 Step == /\ ~done
         /\ done' = TRUE
